@@ -455,3 +455,55 @@ pub fn reference_says_nonfinite(text: &str, doc_json: &str) -> bool {
     let mut cx = crate::refeval::Ctx::default();
     matches!(crate::refeval::eval(&tree, &doc, &mut cx), Err(crate::refeval::EvalErr::Unspecified(m)) if m.contains("non-finite"))
 }
+
+/// One compiled expression searched on several documents in a row (and a clone of it made
+/// after the first search): every outcome must be the outcome of a freshly compiled
+/// expression on that document.  What a compound form means depends on the results of its
+/// parts for *this* document, never on an earlier one.
+pub fn reuse_agrees(sub: &str, text: &str, docs: &[&str]) -> Result<(), crate::runner::Failure> {
+    let compiled = match jmespath::compile(text) {
+        Ok(c) => c,
+        Err(_) => return Ok(()),
+    };
+    let show = |r: Result<jmespath::Rcvar, JmespathError>| -> String {
+        match r {
+            Ok(v) => format!("Ok({})", serde_json::to_string(&*v).unwrap_or_else(|e| format!("<unserialisable: {}>", e))),
+            Err(e) => format!("Err({:?} offset {})", e.reason, e.offset),
+        }
+    };
+    let mut cloned: Option<jmespath::Expression<'static>> = None;
+    for (k, d) in docs.iter().enumerate() {
+        let var = match Variable::from_json(d) {
+            Ok(v) => v,
+            Err(_) => continue,
+        };
+        let fresh = match jmespath::compile(text) {
+            Ok(c) => c,
+            Err(_) => return Ok(()),
+        };
+        let want = match catch(std::panic::AssertUnwindSafe(|| fresh.search(var.clone()))) {
+            Ok(r) => show(r),
+            Err(p) => format!("panic {}", p),
+        };
+        for (label, e) in [("the expression compiled once", Some(&compiled)), ("a clone made after the first search", cloned.as_ref())] {
+            if let Some(e) = e {
+                let got = match catch(std::panic::AssertUnwindSafe(|| e.search(var.clone()))) {
+                    Ok(r) => show(r),
+                    Err(p) => format!("panic {}", p),
+                };
+                if got != want {
+                    return Err(crate::runner::Failure::new(
+                        sub,
+                        "compound-depends-on-an-earlier-document",
+                        format!("{} searched on document {} of the sequence gives {} through {} but a freshly compiled expression gives {}", text, k, clip(&got, 300), label, clip(&want, 300)),
+                        serde_json::json!({"expression": text, "documents": docs}),
+                    ));
+                }
+            }
+        }
+        if k == 0 {
+            cloned = Some(compiled.clone());
+        }
+    }
+    Ok(())
+}
